@@ -46,11 +46,13 @@ def gen_muts(rng, doc, n):
     secs, props = nodes_of(doc)
     muts = []
     for _ in range(n):
-        kind = rng.choice(["share-id", "clear-type", "clear-name", "dup-name", "dependency", "dependency", "card",
-                           "bad-values", "empty-name"])
+        kind = rng.choice(["share-id", "share-id-cross-kind", "clear-type", "clear-name", "dup-name", "dependency",
+                           "dependency", "card", "bad-values", "empty-name"])
         if kind == "share-id" and secs:
             muts.append(["share-id", rng.choice(["sec", "prop"]) if props else "sec", rng.randrange(10 ** 6),
                          rng.randrange(10 ** 6)])
+        elif kind == "share-id-cross-kind" and secs and props:
+            muts.append(["share-id-cross-kind", rng.randrange(10 ** 6), rng.choice(["sec", "doc", "sec-later"]), rng.randrange(10 ** 6)])
         elif kind == "clear-type" and secs:
             muts.append(["clear-type", rng.randrange(len(secs)), rng.choice([None, "", "n.s."])])
         elif kind == "clear-name" and (secs or props):
@@ -99,6 +101,14 @@ def apply_muts(doc, muts):
                 if c.name in lst:
                     c.name = c.name + "_copy"
                 dst.append(c)
+            elif name == "share-id-cross-kind":
+                if not props or not secs:
+                    continue
+                p = props[m[1] % len(props)]
+                if m[2] == "doc":
+                    p.new_id(doc.id)
+                else:
+                    p.new_id(secs[m[3] % len(secs)].id)
             elif name == "clear-type":
                 secs[m[1] % len(secs)].type = m[2]
             elif name == "clear-name":
